@@ -224,6 +224,15 @@ impl OutputStreamFormatter {
     }
 }
 
+/// Verification hook (only with `--cfg sqruff_verif`): read-only view of the dispatch counter.
+#[cfg(sqruff_verif)]
+impl OutputStreamFormatter {
+    pub fn verif_files_dispatched(&self) -> usize {
+        self.files_dispatched
+            .load(std::sync::atomic::Ordering::SeqCst)
+    }
+}
+
 #[derive(Clone, Copy)]
 pub enum Status {
     Pass,
